@@ -1,4 +1,4 @@
-SERVED = ["C03", "C05", "C06", "C07", "C08", "C10", "C15", "C13", "C14", "C16", "C17", "C18", "C19", "C20"]
+SERVED = ["C01", "C03", "C05", "C06", "C07", "C08", "C10", "C15", "C13", "C14", "C16", "C17", "C18", "C19", "C20"]
 HOOKS = {
     "guard": "PSYCHEC_VERIF",
     "enable": "harness/Makefile compiles /repo's sources with -DPSYCHEC_VERIF into /verif/.cache/build-<flavour>/; "
@@ -81,6 +81,20 @@ CHECKS = {
         "note": "Trusted: Coq kernel; hand transcription C18Model.v (chains as index lists, object identity as element index, int arithmetic unbounded: < 2^28 elements); extraction; harness. "
                 "That tokens are NUL-free is C01/C05's business. Print Assumptions: closed under the global context.",
         "technique": "Coq invariant proof by induction over operation histories (any hash function) + model/implementation correspondence incl. internal chains",
+    },
+    "C01": {
+        "text": "PARTIAL. Theorems, for EVERY text (any bytes: embedded NULs, truncated or invalid UTF-8) and EVERY token vector ending in EndOfFile: C01_lexer_cursor_in_bounds / C01_lexer_scan_total — the "
+                "model of Lexer::yyinput_CORE reads only inside the NUL-terminated buffer, strictly advances and never passes the terminating NUL; C01_recovery_cursor_safe — the four panic-mode recovery loops, "
+                "as regenerated from Parser.cpp on this run, return with the cursor in range, never read tokenAt() out of range and never pass EndOfFile; C01_skipTo_safe, C01_match_safe, "
+                "C01_backtrack_in_range, C01_peek_in_bounds (the exact side condition for k-token look-ahead), C01_depth_bounded / C01_depth_no_spurious_error for the nesting counter with the limits read from "
+                "Parser__IMPL__.inc.  The models are tied to the compiled code by correspondence (positions visited on random byte strings; cursor after each recovery/skipTo/match/backtrack call at every cursor "
+                "position of lexed texts).  NOT a theorem: the sub-lexers and the grammar productions that drive the cursors, the reparser, memory management — these are explored: parseText in all four syntax "
+                "categories and five option sets on the repository's test snippets, token mutants, truncation at every byte, byte damage, random bytes, punctuation soup, nesting up to and just beyond the declared "
+                "limits, unterminated constructs, in the NDEBUG build and under ASan+UBSan with and without NDEBUG; failing inputs are shrunk and reported.",
+        "design_ref": "DESIGN.md section 6, C01",
+        "note": "Trusted: Coq kernel incl. vm_compute; hand-written cursor models C01Model.v; translate/recov.py (validated each run); extraction; harness; sanitizers (ASan+UBSan of g++ 12). "
+                "Runtime residue the model cannot exhibit: stack exhaustion, allocator behaviour, the productions' own progress. Print Assumptions: closed under the global context.",
+        "technique": "Coq proofs by induction over arbitrary texts / token vectors for the cursor and counter models (one regenerated from the source) + correspondence; sanitizer exploration for the unmodelled productions",
     },
     "C05": {
         "text": "PARTIAL. Theorem C05_punctuator_maximal_munch, over the punctuator cases of Lexer::yylex_CORE as regenerated from Lexer.cpp on this run (decision statements: kind assignment, yyinput(), "
